@@ -292,6 +292,31 @@ def displaced_aids(ur, rec):
     return out
 
 
+CONTEXT_PINS_PATH = os.path.join(ROOT, 'context_pins.json')
+CONTEXT_PINS = json.load(open(CONTEXT_PINS_PATH)) if os.path.exists(CONTEXT_PINS_PATH) else {}
+
+
+def context_pin_status(prop):
+    from .gen import SrcCache
+    cache = SrcCache()
+    rows = []
+    for pin in CONTEXT_PINS.get(prop, []):
+        row = dict(pin)
+        try:
+            src = cache.get(pin['file'])
+            found = src.find(pin['selector'])
+        except GenError:
+            found = []
+        if len(found) != 1:
+            row['state'] = 'is gone (or ambiguous)'
+        else:
+            it = found[0]
+            sig = ' '.join(t.text for t in src.toks[it.start:it.end] if t.kind not in ('ws', 'comment'))
+            row['state'] = 'unchanged' if hashlib.sha256(sig.encode()).hexdigest()[:12] == pin['hash'] else 'has changed'
+        rows.append(row)
+    return rows
+
+
 def drop_fn(msg):
     """function a dropped-directive message belongs to (messages start with `<file> :: <selector>: ` or `<selector>: `)"""
     head = msg.split(': ', 1)[0]
@@ -485,6 +510,12 @@ def check_property(prop, tier='quick'):
         undecided.extend(kres['undecided'])
         cmds.extend(kres['cmds'])
         trusted.extend(kres.get('trusted', []))
+    # context pins: functions this property's behaviour passes through that none of its units verifies (context_pins.json, written on the clean tree
+    # by tools/context_pins.py). A changed context function cannot be judged by any contract here: the property is undecided, not OK.
+    ctx_rows = context_pin_status(prop)
+    for row in ctx_rows:
+        if row['state'] != 'unchanged':
+            undecided.append('context function %s :: %s %s; no unit of %s verifies it (pinned text %s): not a verdict' % (row['file'], row['selector'], row['state'], prop, row['hash']))
     wall = time.time() - t0
     # safety net: a relevant function that did not verify must have produced a named failure; if none could be attributed, the run is
     # undecided (never OK)
@@ -511,7 +542,9 @@ def check_property(prop, tier='quick'):
             'rewrites_applied': rewrites, 'manual_rewrites': manual, 'outlined': outlined,
             'vacuity_guards_failed_as_expected': vac_expected,
             'hints_dropped_anchor_lost': [h for ur in results if not ur.error for h in ur.u.hints_dropped],
+            'hints_relocated_condition_changed': [h for ur in results if not ur.error for h in getattr(ur.u, 'hints_relocated', [])],
             'pinned_assumed_functions': sorted(set(x for ur in results if not ur.error for x in getattr(ur.u, 'pinned', []))),
+            'context_functions_pinned_not_verified': ['%s :: %s' % (r['file'], r['selector']) for r in ctx_rows],
             'statement_clauses_covered': spec.get('covered', []),
             'statement_clauses_not_covered': spec.get('not_covered', []),
             'bounded': extra.get('kani', {}).get('bounded', []) if extra else [],
